@@ -45,9 +45,10 @@ def instances(tier):
             out.append(dict(id="steps-%s-N2-solverfail" % fam, family=fam, N=2, mode="steps", root_success="fork", budget=b))
     # a ValueError raised once by the rhs is swallowed by the integrator's retry (known finding of C12): the retried step and all later
     # ones still have the requested size
-    for fam in (["rk4"] if tier == "quick" else ["euler", "rk4", "midpoint"]):
-        for k in ((3,) if tier == "quick" else (2, 3, 6)):
-            out.append(dict(id="steps-%s-N3-valueerror-k%d" % (fam, k), family=fam, N=3, mode="steps", rhs_valueerror_at=k, budget=b))
+    # (an explicit scheme re-raises such an exception since fix a48c06e: that is C12's subject; the implicit ones still retry)
+    for fam in (["backward_euler"] if tier == "quick" else ["backward_euler", "implicit_midpoint"]):
+        for k in ((3,) if tier == "quick" else (2, 3, 5)):
+            out.append(dict(id="steps-%s-N2-valueerror-k%d" % (fam, k), family=fam, N=2, mode="steps", rhs_valueerror_at=k, budget=b))
     for fam in (["euler", "sympl_euler"] if tier == "quick" else ["euler", "rk4", "midpoint", "sympl_euler", "abas5o6h"]):
         out.append(dict(id="two-calls-%s-N4" % fam, family=fam, N=4, mode="twocalls", budget=b))
         out.append(dict(id="two-calls-reversal-%s-N3" % fam, family=fam, N=3, mode="twocalls", reverse=True, budget=b))
@@ -80,7 +81,8 @@ def scenario(c, inst):
     if mode == "steps":
         rhs_in = None
         if inst.get("rhs_valueerror_at") is not None:
-            rhs_in = FreshRhs(c, shape, fault_at=inst["rhs_valueerror_at"], fault_exc=ValueError("transient"))
+            from .common import FreshRhsWithJac
+            rhs_in = (FreshRhsWithJac if kind == "implicit" else FreshRhs)(c, shape, fault_at=inst["rhs_valueerror_at"], fault_exc=ValueError("transient"))
         st, built = run(spans.build_system, c, inst, t0, tf, dt0, False, rhs_in)
         if st == "exc":
             c.check("c04.constructs", False, info=repr(built))
@@ -96,7 +98,8 @@ def scenario(c, inst):
         failed_solves = [e for e in log["root"] if not e["success"]]
         regions = {}
         if kind == "implicit" and len(steps) >= 2:
-            # KNOWN finding c04.implicit_step_growth: every accepted step of a non-adaptive implicit method multiplies dt by 1+atan(inf)
+            # (historic: finding c04.implicit_step_growth, repaired by fix 82e5a77 - the key is no longer listed, so this region masks nothing
+            # and the growth would be reported as a violation again)
             grow = [c.eq(steps[i + 1], GROWTH * steps[i], 1) for i in range(len(steps) - 2)]
             regions["c04.implicit_step_growth"] = c.all(grow) if grow else True
         if kind == "fixed" or not failed_solves:
